@@ -20,7 +20,8 @@ def handleVerdict (line : String) : String :=
     | [_, bin, ni, assertsS, arrangeErrAt, broken] =>
       let asserts := assertsS.splitOn ","
       let arrErr := arrangeErrAt.toInt?.getD (-1)
-      let runOk := bin == "brk"
+      -- a fault in the trap function is a fault of the run (the Go wrapper panics, RunExt recovers)
+      let runOk := bin == "brk" || bin == "trapok"
       -- the script increments `iter` in assert(): iteration i (0-based) sees iter == i in arrange and uses assertion i
       let iters := fun (i : Nat) =>
         let a := asserts.getD i "true"
@@ -30,7 +31,7 @@ def handleVerdict (line : String) : String :=
       let d := if model == res.trim then "agree" else s!"DIFF verdict:model={model}"
       -- the property, directly: OK only if the driver ran at least once to its BRK and every assert made returned true
       let n := iterCount (numItersOf ni)
-      let shouldFail := bin != "brk" || broken != "0" || n == 0 ||
+      let shouldFail := !runOk || broken != "0" || n == 0 ||
         (List.range n).any (fun i => !(assertTrueOf (asserts.getD i "true")) || (i : Int) == arrErr)
       let v := if res.trim == "hostcrash" then "VIOL C09:hostcrash"
         else if res.trim == "ok" && shouldFail then s!"VIOL C09:ok-but-should-fail:{bin}:{ni}:{assertsS}"
